@@ -101,7 +101,10 @@ func TestBounded(t *testing.T) {
 	for _, a := range jwa.KeyEncryptionAlgorithms() {
 		names = append(names, a)
 	}
-	names = append(names, "bogus-alg", nil)
+	// unknown names, among them spellings of the approved algorithms that differ only in letter case,
+	// carry surrounding blanks, or are the approved name of another key type glued to this one's
+	names = append(names, "bogus-alg", nil, "ps512", "Ps512", "pS512", "es512", "Es512", "eddsa", "EDDSA", "Eddsa", "edDSA",
+		" PS512", "PS512 ", "ES512\n", "EdDSA ", "PS-512", "PS512/ES512", "RSA/PS512", "")
 	approved := map[jwa.KeyType]jwa.SignatureAlgorithm{jwa.RSA: jwa.PS512, jwa.EC: jwa.ES512, jwa.OKP: jwa.EdDSA}
 	for _, base := range keys {
 		for _, n := range names {
